@@ -124,6 +124,8 @@ Proof.
       destruct (R x y); [subst; contradiction|discriminate].
 Qed.
 
+Arguments nodup_by_spec {A} eqb _ l.
+
 (** * [rfold] *)
 
 Lemma rfold_app (S A : Type) (f : S -> A -> res S) l1 l2 x :
@@ -156,8 +158,7 @@ Proof.
   - intros [= <-]; rewrite app_nil_r; exact HI.
   - inversion HQ as [|? ? Qa HQ']; subst.
     destruct (f x a) as [y|] eqn:E; [|discriminate]. intros Hr.
-    rewrite (app_assoc done [a] l) || replace (done ++ a :: l) with ((done ++ [a]) ++ l)
-      by (rewrite <- app_assoc; reflexivity).
+    replace (done ++ a :: l) with ((done ++ [a]) ++ l) by (rewrite <- app_assoc; reflexivity).
     eapply IH; eauto.
 Qed.
 
@@ -172,8 +173,47 @@ Proof.
     apply IH; auto.
 Qed.
 
+Arguments rfold_total {S A} f Q I _ l done x _ _.
+Arguments rfold_partial {S A} f Q I _ l done x x' _ _ _.
+Arguments fold_left_inv {S A} f Q I _ l done x _ _.
+
+Lemma NoDup_map_inj (A B : Type) (f : A -> B) (l : list A) a b :
+  NoDup (map f l) -> In a l -> In b l -> f a = f b -> a = b.
+Proof.
+  induction l as [|x l IH]; simpl; intros ND Ha Hb E; [contradiction|].
+  inversion ND as [|? ? Hx ND']; subst.
+  destruct Ha as [->|Ha], Hb as [->|Hb]; auto.
+  - exfalso; apply Hx; rewrite E; apply in_map; exact Hb.
+  - exfalso; apply Hx; rewrite <- E; apply in_map; exact Ha.
+Qed.
+Arguments NoDup_map_inj {A B} f l a b _ _ _ _.
+
+Lemma NoDup_map_filter (A B : Type) (f : A -> B) (p : A -> bool) (l : list A) :
+  NoDup (map f l) -> NoDup (map f (filter p l)).
+Proof.
+  induction l as [|x l IH]; simpl; intros ND; [constructor|].
+  inversion ND as [|? ? Hx ND']; subst.
+  destruct (p x); simpl; [|auto]. constructor; [|auto].
+  intros Hin; apply Hx; apply in_map_iff in Hin; destruct Hin as (y & E & Hy).
+  apply filter_In in Hy; rewrite <- E; apply in_map; tauto.
+Qed.
+Arguments NoDup_map_filter {A B} f p l _.
+
 Lemma Forall_True (A : Type) (l : list A) : Forall (fun _ => True) l.
 Proof. apply Forall_forall; auto. Qed.
+
+Lemma NoDup_snoc (A : Type) (l : list A) (x : A) : NoDup l -> ~ In x l -> NoDup (l ++ [x]).
+Proof.
+  induction l as [|y l IH]; simpl; intros ND Hn; [constructor; [tauto|constructor]|].
+  inversion ND as [|? ? Hy ND']; subst. constructor.
+  - rewrite in_app_iff; simpl; intros [H|[H|[]]]; [contradiction|subst; tauto].
+  - apply IH; tauto.
+Qed.
+
+Lemma NoDup_snoc_inv (A : Type) (l : list A) (x : A) : NoDup (l ++ [x]) -> NoDup l /\ ~ In x l.
+Proof.
+  intros ND; apply NoDup_remove in ND; rewrite app_nil_r in ND; exact ND.
+Qed.
 
 (** * [ensure_node], [add_edge] *)
 
@@ -191,10 +231,9 @@ Lemma ensure_node_keys g n k :
   In k (map nkey (tnodes (ensure_node g n))) <-> In k (map nkey (tnodes g)) \/ k = nkey n.
 Proof.
   rewrite ensure_node_nodes; destruct (node_exists g (nkey n)) eqn:E.
-  - apply node_exists_in in E; split; [auto|intros [H|->]; auto].
+  - apply node_exists_in in E; split; [auto|intros [H| ->]; auto].
   - rewrite map_app, in_app_iff; simpl; split; intros [H|H]; auto.
-    + destruct H as [<-|[]]; auto.
-    + subst; auto.
+    destruct H as [<-|[]]; auto.
 Qed.
 
 Lemma ensure_node_in g n n' :
@@ -216,5 +255,246 @@ Lemma ensure_node_nodup g n :
 Proof.
   rewrite ensure_node_nodes; destruct (node_exists g (nkey n)) eqn:E; [auto|].
   apply node_exists_false in E; intros ND; rewrite map_app; simpl.
-  apply NoDup_app_cons_end; assumption.
+  apply NoDup_snoc; assumption.
+Qed.
+
+(** * Decidable equality of metadata, nodes and edges *)
+
+Section JsonInd.
+  Variable P : json -> Prop.
+  Hypothesis Hnull : P JNull.
+  Hypothesis Hbool : forall b, P (JBool b).
+  Hypothesis Hint : forall z, P (JInt z).
+  Hypothesis Hstr : forall s, P (JStr s).
+  Hypothesis Hlist : forall l, Forall P l -> P (JList l).
+  Hypothesis Hobj : forall l, Forall (fun kv : name * json => P (snd kv)) l -> P (JObj l).
+  Fixpoint json_ind' (j : json) : P j :=
+    match j with
+    | JNull => Hnull
+    | JBool b => Hbool b
+    | JInt z => Hint z
+    | JStr s => Hstr s
+    | JList l =>
+        Hlist l ((fix go (l : list json) : Forall P l :=
+                  match l with
+                  | [] => Forall_nil _
+                  | x :: l' => Forall_cons x (json_ind' x) (go l')
+                  end) l)
+    | JObj l =>
+        Hobj l ((fix go (l : list (name * json)) : Forall (fun kv => P (snd kv)) l :=
+                 match l with
+                 | [] => Forall_nil _
+                 | kv :: l' => Forall_cons kv (json_ind' (snd kv)) (go l')
+                 end) l)
+    end.
+End JsonInd.
+
+Lemma json_eqb_eq a : forall b, json_eqb a b = true <-> a = b.
+Proof.
+  induction a as [| x | x | x | l IH | l IH] using json_ind'; intros b; destruct b;
+    simpl; try (split; [discriminate|congruence]).
+  - tauto.
+  - rewrite Bool.eqb_true_iff; split; congruence.
+  - rewrite Z.eqb_eq; split; congruence.
+  - rewrite name_eqb_eq; split; congruence.
+  - rename l0 into l2. revert l2; induction IH as [|x l Hx Hl IHl]; intros [|y l2];
+      try (split; [discriminate|congruence]); [tauto|].
+    rewrite andb_true_iff, Hx, IHl; split; [intros [-> E]; inversion E; reflexivity|].
+    intros E; inversion E; auto.
+  - rename l0 into l2. revert l2; induction IH as [|[k x] l Hx Hl IHl]; intros [|[k2 y] l2];
+      try (split; [discriminate|congruence]); [tauto|].
+    simpl in Hx. rewrite !andb_true_iff, name_eqb_eq, Hx, IHl; split.
+    + intros [[-> ->] E]; inversion E; reflexivity.
+    + intros E; inversion E; auto.
+Qed.
+
+Lemma meta_eqb_eq (x y : meta) : meta_eqb x y = true <-> x = y.
+Proof.
+  revert y; induction x as [|[k a] x IH]; intros [|[k2 b] y]; simpl;
+    try (split; [discriminate|congruence]); [tauto|].
+  rewrite !andb_true_iff, name_eqb_eq, json_eqb_eq, IH; split.
+  - intros [[-> ->] ->]; reflexivity.
+  - intros E; inversion E; auto.
+Qed.
+
+Lemma meta_eqb_refl x : meta_eqb x x = true.
+Proof. apply meta_eqb_eq; reflexivity. Qed.
+
+Lemma vtype_eqb_eq a b : vtype_eqb a b = true <-> a = b.
+Proof. destruct (vtype_eqb_spec a b); split; congruence. Qed.
+
+Lemma etype_eqb_eq a b : etype_eqb a b = true <-> a = b.
+Proof. destruct (etype_eqb_spec a b); split; congruence. Qed.
+
+Lemma tnode_eqb_eq a b : tnode_eqb a b = true <-> a = b.
+Proof.
+  unfold tnode_eqb; rewrite !andb_true_iff, key_eqb_eq, vtype_eqb_eq, meta_eqb_eq.
+  destruct a, b; unfold nkey; simpl; split.
+  - intros [[E -> ] ->]; inversion E; reflexivity.
+  - intros E; inversion E; auto.
+Qed.
+
+Lemma tedge_eqb_eq a b : tedge_eqb a b = true <-> a = b.
+Proof.
+  unfold tedge_eqb; rewrite !andb_true_iff, !key_eqb_eq, etype_eqb_eq, meta_eqb_eq.
+  destruct a, b; unfold esrc, edst; simpl; split.
+  - intros [[[E1 E2] ->] ->]; inversion E1; inversion E2; reflexivity.
+  - intros E; inversion E; auto.
+Qed.
+
+(** * A concrete time-series DAG used by the [Example]s of the property files.
+    Built in Python as: add_node('Z', CONTINUOUS, meta {'a':1}); add_edge('X lag(n=1)','Y');
+    add_edge('Y lag(n=1)','X', meta {'b':'u'}); add_edge('X lag(n=1)','X'); add_edge('X','Y');
+    add_edge('W lag(n=2)','Y lag(n=1)'); graph meta {'g':1}.  (X=88, Y=89, W=87, Z=90.) *)
+Definition Nd := Build_tnode.
+Definition Ed := Build_tedge.
+Definition Gr := Build_tsg.
+Definition PN := Build_pnode.
+Definition PE := Build_pedge.
+Definition PG := Build_pgraph.
+Definition ex_g : tsg :=
+   Gr [(Nd [90]%N (0)%Z VCont [([97]%N, JInt (1)%Z)]); (Nd [88]%N (-1)%Z VUnspec []); (Nd [89]%N (0)%Z VUnspec []); (Nd [89]%N (-1)%Z VUnspec []); (Nd [88]%N (0)%Z VUnspec []); (Nd [87]%N (-2)%Z VUnspec [])] [(Ed [87]%N (-2)%Z [89]%N (-1)%Z Dir []); (Ed [88]%N (0)%Z [89]%N (0)%Z Dir []); (Ed [88]%N (-1)%Z [88]%N (0)%Z Dir []); (Ed [88]%N (-1)%Z [89]%N (0)%Z Dir []); (Ed [89]%N (-1)%Z [88]%N (0)%Z Dir [([98]%N, JStr [117]%N)])] [([103]%N, JInt (1)%Z)].
+
+Fixpoint list_eqb (A : Type) (eqb : A -> A -> bool) (x y : list A) : bool :=
+  match x, y with
+  | [], [] => true
+  | a :: x', b :: y' => eqb a b && list_eqb A eqb x' y'
+  | _, _ => false
+  end.
+(** Exact comparison with a Python result: nodes in dict order, edges in [get_edges()] order. *)
+Definition tsg_exact (a b : tsg) : bool :=
+  list_eqb _ tnode_eqb (tnodes a) (tnodes b) && list_eqb _ tedge_eqb (sorted_edges a) (tedges b)
+  && meta_eqb (tgmeta a) (tgmeta b).
+Definition res_exact (r1 r2 : res tsg) : bool :=
+  match r1, r2 with
+  | Ok a, Ok b => tsg_exact a b
+  | Err e1, Err e2 => N.eqb (err_code e1) (err_code e2)
+  | _, _ => false
+  end.
+
+(** * Well-formed time-series graphs: the invariant every Python [TimeSeriesCausalGraph] has
+      (unique node identifiers, at most one edge per unordered pair of nodes, no self loop, the
+      endpoints of an edge are nodes, and a stored edge never points back in time). *)
+Record wf (g : tsg) : Prop := {
+  wf_nodes : NoDup (map nkey (tnodes g));
+  wf_edges : NoDup (map ekey (tedges g));
+  wf_norev : forall e1 e2, In e1 (tedges g) -> In e2 (tedges g) ->
+                           esrc e1 = edst e2 -> edst e1 = esrc e2 -> False;
+  wf_ends : forall e, In e (tedges g) ->
+                      In (esrc e) (map nkey (tnodes g)) /\ In (edst e) (map nkey (tnodes g));
+  wf_time : forall e, In e (tedges g) -> esl e <= edl e
+}.
+
+Lemma wf_empty gm : wf (empty_tsg gm).
+Proof. constructor; simpl; try constructor; intros; contradiction. Qed.
+
+Lemma wf_noself g e : wf g -> In e (tedges g) -> esrc e <> edst e.
+Proof. intros W He E; exact (wf_norev g W e e He He E (eq_sym E)). Qed.
+
+Definition added (g : tsg) (sn dn : tnode) (ty : etype) (m : meta) : tsg :=
+  {| tnodes := tnodes (ensure_node (ensure_node g sn) dn);
+     tedges := tedges g ++ [mk_edge sn dn ty m];
+     tgmeta := tgmeta g |}.
+
+(** [add_edge] when the endpoints are given in time order (no swap, no ValueError). *)
+Lemma add_edge_noswap g sn dn ty m :
+  tl sn <= tl dn ->
+  add_edge g sn dn ty m =
+    if key_eqb (nkey sn) (nkey dn) then Err ECyclic
+    else if edge_exists g (nkey sn) (nkey dn) then Err EEdgeDup
+    else if edge_exists g (nkey dn) (nkey sn) then Err EReverse
+    else Ok (added g sn dn ty m).
+Proof.
+  intros Hle; unfold add_edge, added.
+  assert (L : (tl dn <? tl sn) = false) by (apply Z.ltb_ge; exact Hle).
+  rewrite L, !andb_false_r.
+  assert (X : forall s d, edge_exists (ensure_node (ensure_node g sn) dn) s d = edge_exists g s d).
+  { intros s d; unfold edge_exists; rewrite !ensure_node_edges; reflexivity. }
+  rewrite !X, !ensure_node_edges, !ensure_node_meta.
+  destruct (key_eqb (nkey sn) (nkey dn)); [reflexivity|].
+  destruct (edge_exists g (nkey sn) (nkey dn)) eqn:E; [reflexivity|reflexivity].
+Qed.
+
+Lemma ekey_mk_edge s d ty m : ekey (mk_edge s d ty m) = (nkey s, nkey d).
+Proof. reflexivity. Qed.
+
+Lemma added_wf g sn dn ty m :
+  wf g -> tl sn <= tl dn -> nkey sn <> nkey dn ->
+  ~ In (nkey sn, nkey dn) (map ekey (tedges g)) ->
+  ~ In (nkey dn, nkey sn) (map ekey (tedges g)) ->
+  wf (added g sn dn ty m).
+Proof.
+  intros [Wn We Wr Wd Wt] Hle Hne Hf Hr; constructor; simpl.
+  - apply ensure_node_nodup, ensure_node_nodup, Wn.
+  - rewrite map_app; simpl; apply NoDup_snoc; assumption.
+  - intros e1 e2 H1 H2 E1 E2; apply in_app_iff in H1, H2; simpl in H1, H2.
+    destruct H1 as [H1|[<-|[]]], H2 as [H2|[<-|[]]].
+    + exact (Wr e1 e2 H1 H2 E1 E2).
+    + apply Hr; apply in_map_iff; exists e1; split; [|exact H1].
+      unfold ekey; rewrite E1, E2; reflexivity.
+    + apply Hr; apply in_map_iff; exists e2; split; [|exact H2].
+      unfold ekey; rewrite <- E1, <- E2; reflexivity.
+    + apply Hne; exact E1.
+  - intros e He; apply in_app_iff in He; simpl in He. rewrite !ensure_node_keys.
+    destruct He as [He|[<-|[]]]; [destruct (Wd e He); auto|].
+    split; [left; right; reflexivity|right; reflexivity].
+  - intros e He; apply in_app_iff in He; simpl in He.
+    destruct He as [He|[<-|[]]]; [auto|exact Hle].
+Qed.
+
+(** Same nodes (with attributes) and same edges (with type and metadata), as sets. *)
+Definition same_graph (a b : tsg) : Prop :=
+  (forall n, In n (tnodes a) <-> In n (tnodes b))
+  /\ (forall e, In e (tedges a) <-> In e (tedges b))
+  /\ tgmeta a = tgmeta b.
+
+Lemma same_graph_b_spec a b : same_graph_b a b = true <-> same_graph a b.
+Proof.
+  unfold same_graph_b, same_graph; rewrite !andb_true_iff, !forallb_forall, meta_eqb_eq.
+  assert (XN : forall l (n : tnode), existsb (tnode_eqb n) l = true <-> In n l).
+  { intros l n; rewrite existsb_exists; split.
+    - intros (y & Hy & E); apply tnode_eqb_eq in E; subst; exact Hy.
+    - intros H; exists n; split; [exact H|apply tnode_eqb_eq; reflexivity]. }
+  assert (XE : forall l (e : tedge), existsb (tedge_eqb e) l = true <-> In e l).
+  { intros l e; rewrite existsb_exists; split.
+    - intros (y & Hy & E); apply tedge_eqb_eq in E; subst; exact Hy.
+    - intros H; exists e; split; [exact H|apply tedge_eqb_eq; reflexivity]. }
+  split.
+  - intros [[[[H1 H2] H3] H4] H5]; repeat split; auto.
+    + intros H; apply XN, H1, H. + intros H; apply XN, H2, H.
+    + intros H; apply XE, H3, H. + intros H; apply XE, H4, H.
+  - intros (H1 & H2 & H3); repeat split; auto.
+    + intros n Hn; apply XN, H1, Hn. + intros n Hn; apply XN, H1, Hn.
+    + intros e He; apply XE, H2, He. + intros e He; apply XE, H2, He.
+Qed.
+
+Lemma NoDup_of_map (A B : Type) (f : A -> B) (l : list A) : NoDup (map f l) -> NoDup l.
+Proof.
+  induction l as [|x l IH]; simpl; intros ND; [constructor|].
+  inversion ND as [|? ? Hx ND']; subst; constructor; [|auto].
+  intros Hin; apply Hx, in_map, Hin.
+Qed.
+
+Lemma upair_eqb_refl p : upair_eqb p p = true.
+Proof. unfold upair_eqb; rewrite !key_eqb_refl; reflexivity. Qed.
+
+(** Two well-formed graphs with the same nodes and edges are equal for [CausalGraph.__eq__]. *)
+Lemma same_graph_eqb a b : wf a -> wf b -> same_graph a b -> ts_graph_eqb a b = true.
+Proof.
+  intros Wa Wb (Hn & He & _); unfold ts_graph_eqb.
+  assert (Ln : length (tnodes a) = length (tnodes b)).
+  { apply Permutation_length, NoDup_Permutation; auto;
+      eapply NoDup_of_map; [apply (wf_nodes a Wa)|apply (wf_nodes b Wb)]. }
+  assert (Le : length (tedges a) = length (tedges b)).
+  { apply Permutation_length, NoDup_Permutation; auto;
+      eapply NoDup_of_map; [apply (wf_edges a Wa)|apply (wf_edges b Wb)]. }
+  rewrite Ln, Le, !Nat.eqb_refl; simpl.
+  repeat (apply andb_true_iff; split); apply forallb_forall.
+  - intros n H; apply node_exists_in, in_map, Hn, H.
+  - intros n H; apply node_exists_in, in_map, Hn, H.
+  - intros e H; apply existsb_exists; exists e; split; [apply He, H|apply upair_eqb_refl].
+  - intros e H; apply existsb_exists; exists e; split; [apply He, H|apply upair_eqb_refl].
+  - intros e H; unfold edge_match.
+    rewrite (find_edge_unique b e (wf_edges b Wb)); [|apply He, H].
+    destruct (etype_eqb_spec (ety e) (ety e)); congruence.
 Qed.
